@@ -167,7 +167,7 @@ func (w *writer) getFree(ctx context.Context) (int32, error) {
 	for retries > 0 {
 		retries--
 		mid := w.midPool.Get()
-		if mid == 0 {
+		if mid <= 0 {
 			select {
 			case <-time.After(100 * time.Millisecond):
 				continue
